@@ -242,7 +242,7 @@ def propagate_sv(case, ta, ham, psi0):
     return pr.propagate(StateVector(data=numpy.array(psi0, dtype=complex)), L=case["order"])
 
 
-def sv_routes(sev):
+def sv_routes(sev, which=SV_ROUTES):
     """Every public route from a state-vector evolution to density matrices.  Returns
     ({route: array (Nt, d, d)}, the derived DensityMatrixEvolution object, rho of the stored
     initial StateVector)."""
@@ -251,10 +251,11 @@ def sv_routes(sev):
     nt, d = sd.shape
     dme = sev.get_DensityMatrixEvolution()
     out = {"evolution": numpy.array(dme.data, copy=True)}
-    arr = numpy.zeros((nt, d, d), dtype=complex)
-    for i in range(nt):
-        arr[i] = StateVector(data=numpy.array(sd[i], dtype=complex)).get_DensityMatrix().data
-    out["statevector"] = arr
+    if "statevector" in which:
+        arr = numpy.zeros((nt, d, d), dtype=complex)
+        for i in range(nt):
+            arr[i] = StateVector(data=numpy.array(sd[i], dtype=complex)).get_DensityMatrix().data
+        out["statevector"] = arr
     ini = numpy.array(sev.psi_i.get_DensityMatrix().data, copy=True)
     return out, dme, ini
 
@@ -266,6 +267,8 @@ def check_sv_routes(book, tag, lab, routes, svdata, dmref, tol_T, tol_norm, info
     proj = numpy.einsum("ti,tj->tij", svdata, svdata.conj())
     sc = max(1.0, float(numpy.max(numpy.abs(proj))))
     for r in SV_ROUTES:
+        if r not in routes:
+            continue
         arr = numpy.asarray(routes[r])
         if arr.shape != proj.shape or not numpy.all(numpy.isfinite(arr)):
             book.check("sv-route", "sv-route/%s/not-psi-psi-dagger/%s" % (r, tag), [numpy.inf],
@@ -587,8 +590,10 @@ def eval_closed(case):
                                {"state": lab}, informative=inf_route)
             sev.convert_from_RWA(ham)
             sconv = numpy.array(sev.data, copy=True)
-            # the same routes again from the converted (laboratory frame) state-vector evolution
-            routes, _, _ = sv_routes(sev)
+            # the evolution object again after its conversion to the laboratory frame (the route
+            # through StateVector is a stateless function of one stored vector: done above on
+            # every stored vector of the calculation)
+            routes, _, _ = sv_routes(sev, which=("evolution",))
             check_sv_routes(book, tag + "/converted", lab, routes, sconv, conv, tol_route,
                             tol_norm, inf_route)
             psi_lab = numpy.zeros((Nt, d), dtype=complex)
